@@ -362,15 +362,15 @@ theorem swap_partial (c1 c2 : Cubic K)
         | true => exact absurd ((P.beq_iff q p).mp hb).symm hpq
       rw [h1, h2]
   have hrej : trivialReject c2 c1 = trivialReject c1 c2 := by
-    have hi : c2.fastBoundingBox.intersects c1.fastBoundingBox
-        = c1.fastBoundingBox.intersects c2.fastBoundingBox := by
-      unfold Box.intersects
+    have hi : c2.ixFastBoundingBox.intersects c1.ixFastBoundingBox
+        = c1.ixFastBoundingBox.intersects c2.ixFastBoundingBox := by
+      unfold IxBox.intersects
       have e : ∀ a b : K, decide (a > b) = decide (b < a) := fun a b => rfl
       simp only [e]
-      cases decide (c2.fastBoundingBox.min.x < c1.fastBoundingBox.max.x) <;>
-      cases decide (c1.fastBoundingBox.min.x < c2.fastBoundingBox.max.x) <;>
-      cases decide (c2.fastBoundingBox.min.y < c1.fastBoundingBox.max.y) <;>
-      cases decide (c1.fastBoundingBox.min.y < c2.fastBoundingBox.max.y) <;> rfl
+      cases decide (c2.ixFastBoundingBox.min.x < c1.ixFastBoundingBox.max.x) <;>
+      cases decide (c1.ixFastBoundingBox.min.x < c2.ixFastBoundingBox.max.x) <;>
+      cases decide (c2.ixFastBoundingBox.min.y < c1.ixFastBoundingBox.max.y) <;>
+      cases decide (c1.ixFastBoundingBox.min.y < c2.ixFastBoundingBox.max.y) <;> rfl
     unfold trivialReject cubicBeq cubicIsReverse
     rw [hi, hbeq c2.a c1.a, hbeq c2.c1 c1.c1, hbeq c2.c2 c1.c2, hbeq c2.b c1.b,
       hbeq c2.a c1.b, hbeq c2.c1 c1.c2, hbeq c2.c2 c1.c1, hbeq c2.b c1.a]
